@@ -18,7 +18,7 @@ CLAIMED = {
  'C04': ("_inject_task1 -> resched/unwind_till/instant_to_tstamp -> task_cb/run_task -> chld_cb/unsched for one task with symbolic occurrences, a symbolic load time and symbolic non-decreasing wake-up times with optional child exits; per step exactly one run is started iff an occurrence with load <= t < now is outstanding; instant_to_tstamp equals the oracle epoch second for every instant of 2001..2099 (own obligation).",
          "one task, 2 occurrences (any second of two consecutive days), 2-3 loop iterations quick (3 occurrences, 4 iterations thorough); libev/spawn stand-ins with libev 4's reschedule-then-callback order; replace/cancel histories and several tasks are C11/C12's harnesses.", "symbolic wake-up schedules against epoch-second ground truth", "6 C04"),
  'C10': ("_ical_push/_ical_pull/esccpy executed on N fully symbolic bytes (all 256 values), once as one chunk and once split at each position, with the callers' pull protocol (pull until need-more-data, the extra pull round at end of input, the last pull); every completed line handed to the component parser is recorded and must be identical; bounds/pointer checks and a canary on the line stash; unwinding assertions bound the chopping loops.",
-         "N <= 4 bytes quick (5-6 thorough), two chunks, line stash reduced to 16 bytes (hook; 3 bytes for the over-long-line safety obligations); the component state machine _ical_proc is observed through hook ECHSE_VERIF_PROC, it is a function of (state, line); known finding C10-1 (escape split) excluded and re-confirmed each run.", "chunked-vs-whole differential on symbolic bytes", "6 C10"),
+         "N <= 5 bytes quick (6 thorough), two or three chunks, line stash reduced to 16 bytes (hook; 3 bytes for the over-long-line safety obligations); the component state machine _ical_proc is observed through hook ECHSE_VERIF_PROC, it is a function of (state, line); known finding C10-1 (escape split) excluded and re-confirmed each run.", "chunked-vs-whole differential on symbolic bytes", "6 C10"),
  'C06': ("Write side of the checkpoint: chkpnt()/chkpnt1() with the real buffered writer (src/fdprnt.h) and the real serialiser (src/evical.c) against a file-system stand-in in which any one of the first 12 (thorough: 30) system calls fails outright or short; the invariant 'the live queue file is the old complete file or a new complete file' is asserted at rename time and the dot-file/unlink/rename protocol after the run, which covers a crash at every system-call boundary (rename atomic). The dirty-user bookkeeping (add_chkpnt/chkpnt: 16-slot list, dump-everybody fallback on overflow) is its own obligation: every user with a change note since the last checkpoint is checkpointed.",
          "queue configuration (0-2 tasks, owners, dirty user) and the length of every formatted field are constants of the obligation (7 configurations; field length 8, thorough also 40) because a symbolic length makes the writer's buffer index a 130-deep conditional chain cbmc cannot simplify; output buffer reduced to 128 bytes (hook); the reload half (a daemon started afterwards schedules exactly the checkpointed tasks) needs the text parser on the produced bytes and is outside; known finding C06-1 (write errors unnoticed) excluded by assumption and re-confirmed each run.", "single symbolic fault over the system-call trace of a checkpoint", "6 C06"),
  'C09': ("The fillers called as refill() calls them with bounds/pointer checks on the real cache buffer (cache 4 via hook): overshoot shapes, the maximal BYHOUR/BYSECOND lists, and empty recurrence sets that must end the stream within the unwinding bound (a failed unwinding assertion is replayed natively under a time limit).",
